@@ -517,7 +517,7 @@ pub fn run(ctx: &Ctx) -> Report {
     }
     report_known(ctx, &mut rep, &|v| replay(&ctx.strict_clone(), v));
     run_regressions(ctx, &mut rep, &|v| replay(&ctx.strict_clone(), v));
-    let out = run_random(ctx.seed, ctx.tier.pick(300_000, 15_000_000), 1500, decode, check);
+    let out = run_random(ctx.seed, ctx.tier.pick(1_500_000, 25_000_000), 1500, decode, check);
     rep.absorb(out);
     // pathological cases in child processes
     let sizes: &[usize] = match ctx.tier {
